@@ -44,6 +44,10 @@ def declare(ct):
     F("StroquOOL", partition="ref:Partition", iteration="int", h_max="int", p_max="int", curr_depth="int", curr_p="int",
       chosen="list[ref:$N]", time_stamp="int", validation_p="int", candidate="list[ref?:$N]", curr_loc="int", curr_node="ref:$N",
       eval="bool", max_node="ref?:$N", end="bool")
+    F("point", p="list[real]")
+    F("Zooming", partition="ref:Partition", iteration="int", nu="real", rho="real", phase="int", next_end_time="int", time="int",
+      best_arm="ref?:point", active_points="dict[ref:point,ref:$N]", pulled_times="dict[ref:point,int]",
+      average_rewards="dict[ref:point,real]")
     # the base learner handed to POO / GPO as a class: an interface with assumed contracts (contracts/poo.py)
     ct.declare_interface("Learner", {"__init__": ["self", "nu", "rho", "rounds", "domain", "partition"],
                                      "pull": ["self", "time"], "receive_reward": ["self", "time", "reward"]})
